@@ -2,7 +2,7 @@
     [files] are the main-workspace files, [D f] is [diagnose_file] of file [f], [msgs] is ANY
     order of arrival of the messages of the spawned tasks (each task sends exactly once). *)
 From Coq Require Import Permutation.
-From EV Require Import C36.Model C36.Proofs.
+From EV Require Import C36.Model C36.Proofs Gen.C36_send.
 Local Open Scope N_scope.
 
 (** Non-zero exit exactly when a diagnostic that passes the severity filter is an error, or a
@@ -51,6 +51,34 @@ Theorem counts_exact : forall o files D msgs,
   s_err s = expected_count 1 o files D /\ s_warn s = expected_count 2 o files D
   /\ s_info s = expected_count 3 o files D /\ s_hint s = expected_count 4 o files D.
 Proof. exact Proofs.counts_exact. Qed.
+
+(** "Every task sends exactly once" is not assumed: with workers that await their send on the
+    bounded channel (what lib.rs does — regenerated into [Gen.C36_send] on every run), every
+    interleaving of workers and report loop that ends with nothing buffered or waiting delivers
+    each file's message exactly once ... *)
+Theorem every_task_delivers : forall D files sched,
+  Permutation (produced sched) files ->
+  drained (chan_run Gen.C36_send.worker_send_awaited capacity D sched) ->
+  Permutation (arrivals D sched) (sent files D).
+Proof. exact Proofs.every_task_delivers. Qed.
+
+(** ... and only then: with [try_send] / a send that is not awaited a full channel loses results. *)
+Theorem delivery_complete_iff_awaited : forall awaited,
+  (forall cap D files sched, Permutation (produced sched) files -> drained (chan_run awaited cap D sched) ->
+     Permutation (ch_delivered (chan_run awaited cap D sched)) (sent files D)) <-> awaited = true.
+Proof. exact Proofs.delivery_complete_iff_awaited. Qed.
+
+(** End to end, for every schedule of workers, channel and loop: exit status, report content and
+    completion count. *)
+Theorem checker_end_to_end : forall o D files sched,
+  Permutation (produced sched) files ->
+  drained (chan_run Gen.C36_send.worker_send_awaited capacity D sched) ->
+  let st := run o (N.of_nat (length files)) (arrivals D sched) in
+  (exit_code st <> 0 <->
+     exists f ds d, In f files /\ D f = Some ds /\ In d ds /\ passes o d = true /\ is_error o d = true)
+  /\ Permutation (report_pairs (st_writer st)) (expected_pairs o files D)
+  /\ st_count st = N.of_nat (length files).
+Proof. exact Proofs.checker_end_to_end. Qed.
 
 (** non-vacuity: a file with a warning and a hint, a file without diagnostics, a file with
     diagnostics disabled, a file with an error and a severity-less diagnostic; four option sets *)
